@@ -103,9 +103,13 @@ def rand_member(r, hostile=False, last=False):
             exts.append(arc.x_uidgid(r.choice([0, 1, 99999 & 0xFFFF, 65535, 1000]), r.choice([0, 5, 65535, 12345])))
         if r.random() < 0.2:
             exts.append(arc.x_os9(r.getrandbits(16)))
-        if hostile and r.random() < 0.4:
+        if (hostile and r.random() < 0.4) or (not hostile and r.random() < 0.25):
             exts.append(arc.x_user(nm(5)))
             exts.append(arc.x_group(nm(5)))
+        if r.random() < 0.15:
+            exts.append(arc.x_wintime(r.getrandbits(64), r.getrandbits(64), r.getrandbits(64)))
+        if r.random() < 0.5:
+            r.shuffle(exts)          # (the order of extended headers is free; where two of them speak about the same thing the later one wins)
         if lvl == 1:
             if r.random() < 0.5:
                 exts.append(arc.x_utime(stamp))
